@@ -842,8 +842,56 @@ def rule_post(ctx, res):
     res.require_min('R-C05-post', 5)
 
 
+def rule_literals(ctx, res):
+    """compress_code evaluated on every one-byte text (the literal table
+    lookup, its index array and the 0x00 escape, for all 256 byte values):
+    the stream must be the table index of the byte, or 0x00 followed by the
+    byte when the table does not hold it."""
+    from ..absint import cx as CX
+    q = CZ + ':compress_code'
+    try:
+        f = ctx.model.func(q)
+    except Exception:
+        res.vanished('R-C05-format', q, 'function', 'compress_code not found')
+        return
+    table = ref.C_TABLE
+    bad = []
+    try:
+        for b in range(256):
+            cxi = CX.Cx(ctx.model, ctx.consts)
+            paths = cxi.explore(lambda: cxi.call_function(
+                f, [bytes([b])], {}))
+            if len(paths) != 1 or paths[0][0]:
+                raise CX.CxError('forks on a concrete byte')
+            kind, val = paths[0][1]
+            if kind == 'raise':
+                bad.append('text {!r} raises {}'.format(bytes([b]),
+                                                        val.tname))
+                continue
+            got = cxi.items(val)
+            if any(CX.is_sym(x) for x in got):
+                raise CX.CxError('symbolic stream')
+            got = bytes(got)
+            want = bytes([table.index(bytes([b])) + ref.C_TABLE_FIRST_INDEX]) \
+                if bytes([b]) in table else bytes([ref.C_LITERAL_ESCAPE, b])
+            if got != want:
+                bad.append('text {!r} is encoded as {!r} instead of {!r}'
+                           .format(bytes([b]), got, want))
+    except AnalysisError as e:
+        res.info('R-C05-format', q, 'one-byte texts evaluated',
+                 'not followed: ' + str(e)[:120], f.loc)
+        return
+    res.check(not bad, 'R-C05-format', q,
+              'every one-byte text is encoded as its table index, or as '
+              '0x00 + the byte (evaluated for all 256 byte values)',
+              '256 texts', '; '.join(bad[:3]) + (
+                  ' (+{} more)'.format(len(bad) - 3) if len(bad) > 3 else ''),
+              f.loc, semantic=True)
+
+
 def run(ctx, res):
     rule_format(ctx, res)
+    rule_literals(ctx, res)
     rule_post(ctx, res)
     rule_wellformed(ctx, res)
     rule_copy(ctx, res)
